@@ -2,7 +2,7 @@
    without WAL, faults or crashes (property C06).  Definitions only.
 
    Follows src/ingester/mod.rs:
-     Ingester::write (no split in progress, WAL disabled)
+     Ingester::write (no split in progress, WAL disabled; a zero-row batch returns Ok at once)
        -> append_to_buffer_and_maybe_flush   (loop: lock; schema check; take+flush+retry |
                                               BufferFull | append; threshold take+flush)
        -> flush_batches                      (empty check; concat; parquet; PUT; register;
@@ -184,7 +184,11 @@ Definition wstep (c : cfg) (sh : shared) (w : wthread) : shared * wthread :=
   | PIdle =>
       match w_todo w with
       | [] => (sh, w)
-      | b :: r => (sh, mkW (PLock b) r (w_res w))
+      | b :: r =>
+          match b_rows b with
+          | [] => (sh, mkW PIdle r (w_res w ++ [(b, true)]))   (* zero-row batch: Ok, nothing stored *)
+          | _ => (sh, mkW (PLock b) r (w_res w))
+          end
       end
   | PLock b =>
       let bf := sh_buf sh in
